@@ -4,9 +4,10 @@
 //   X <L|F> <size,size,...> <script>     writes of the given sizes issued from the loop thread (L) or a
 //        foreign thread (F); script = outcomes for the successive send calls on that connection:
 //        a<k> accept at most k bytes, w would-block; after the script every call is passed through
+//        a size followed by 'm' is a write issued with MSG_MORE; then the output ends with more=<per send call 'M' if MSG_MORE was set>
 //     -> X bytes=<received> content=<1|0> calls=<send calls until everything was delivered> p=<value|R|P per write> twice=<promises settled more than once>
 //   F <L|F> <reader delay ms> <r<size>|f<size>,...>   memory buffers (r) and file buffers (f, sent with sendfile) mixed; the peer starts reading
-//        after the delay, so large buffers really block
+//        after the delay, so large buffers really block; t<size> is a file that shrinks to 100 bytes after it was queued
 //     -> F bytes=... content=... calls=... p=... twice=...  (as X)
 //   G <threads> <writes per thread> <size> [<reader delay ms>]   several foreign threads write concurrently on one connection
 //     -> G bytes=<received> whole=<complete buffers in the stream> torn=<1 if a buffer is interleaved/corrupt> misordered=<buffers out of their
@@ -47,6 +48,7 @@ struct Script
     std::atomic<long> calls { 0 };
     std::atomic<bool> counting { true };
     std::atomic<bool> eagain_seen { false }; // the kernel really refused bytes on the scripted descriptor
+    std::string more;                        // per counted send call: 'M' if MSG_MORE was set
 } g_script;
 
 ssize_t scripted_send(int fd, const void* buf, size_t len, int flags)
@@ -54,7 +56,11 @@ ssize_t scripted_send(int fd, const void* buf, size_t len, int flags)
     if (fd != g_script.fd)
         return ::send(fd, buf, len, flags | MSG_NOSIGNAL);
     if (g_script.counting)
+    {
         ++g_script.calls;
+        std::lock_guard<std::mutex> g(g_script.m);
+        g_script.more.push_back((flags & MSG_MORE) ? 'M' : '-');
+    }
     long o = -1;
     {
         std::lock_guard<std::mutex> g(g_script.m);
@@ -116,9 +122,17 @@ public:
                 for (size_t i = 0; i < g_sizes.size(); ++i)
                 {
                     std::string data = pattern(i, g_sizes[i]);
-                    auto written = (i < g_kinds.size() && g_kinds[i] == 'f')
-                        ? transport()->asyncWrite(peer->fd(), FileBuffer(g_files[i]), MSG_NOSIGNAL)
-                        : transport()->asyncWrite(peer->fd(), RawBuffer(data, data.size()), MSG_NOSIGNAL);
+                    const char kind = i < g_kinds.size() ? g_kinds[i] : 'r';
+                    auto written = [&]() {
+                        if (kind == 'f' || kind == 't')
+                        {
+                            FileBuffer fb(g_files[i]);
+                            if (kind == 't') // the file shrinks after it was opened and measured
+                                (void)::truncate(g_files[i].c_str(), 100);
+                            return transport()->asyncWrite(peer->fd(), fb, MSG_NOSIGNAL);
+                        }
+                        return transport()->asyncWrite(peer->fd(), RawBuffer(data, data.size()), MSG_NOSIGNAL | (kind == 'm' ? MSG_MORE : 0));
+                    }();
                     written
                         .then(
                             [i](ssize_t v) {
@@ -235,6 +249,7 @@ static std::string handle(const std::string& line)
     g_script.calls    = 0;
     g_script.counting = true;
     g_script.eagain_seen = false;
+    g_script.more.clear();
 
     g_kinds.clear();
     g_files.clear();
@@ -261,7 +276,7 @@ static std::string handle(const std::string& line)
         for (size_t i = 0; i < g_sizes.size(); ++i)
         {
             g_files.emplace_back();
-            if (g_kinds[i] != 'f')
+            if (g_kinds[i] != 'f' && g_kinds[i] != 't')
                 continue;
             char name[] = "/tmp/pv_transport_XXXXXX";
             int tf      = mkstemp(name);
@@ -282,6 +297,21 @@ static std::string handle(const std::string& line)
     {
         g_foreign = t[1] == "F";
         g_sizes   = parse_sizes(t[2]);
+        {
+            // a size followed by 'm': the write is issued with MSG_MORE
+            std::string cur;
+            for (char c : t[2] + ",")
+            {
+                if (c == ',')
+                {
+                    if (!cur.empty())
+                        g_kinds.push_back(cur.back() == 'm' ? 'm' : 'r');
+                    cur.clear();
+                }
+                else
+                    cur.push_back(c);
+            }
+        }
         if (t.size() > 3)
         {
             std::string cur;
@@ -312,9 +342,11 @@ static std::string handle(const std::string& line)
     std::string expected;
     for (size_t i = 0; i < g_sizes.size(); ++i)
     {
-        total += g_sizes[i];
+        // (a file truncated to 100 bytes after it was queued contributes what is left of it)
+        const size_t n = (i < g_kinds.size() && g_kinds[i] == 't') ? std::min<size_t>(g_sizes[i], 100) : g_sizes[i];
+        total += n;
         if (total <= (64u << 20))
-            expected += pattern(i, g_sizes[i]);
+            expected += pattern(i, g_sizes[i]).substr(0, n);
     }
 
     Tcp::Listener listener;
@@ -379,6 +411,14 @@ static std::string handle(const std::string& line)
                 ++twice;
         }
         os << " twice=" << twice;
+        bool any_more = false;
+        for (char k : g_kinds)
+            any_more = any_more || k == 'm';
+        if (any_more)
+        {
+            std::lock_guard<std::mutex> g2(g_script.m);
+            os << " more=" << (g_script.more.empty() ? "-" : g_script.more);
+        }
     }
     else if (t[0] == "G")
     {
